@@ -245,7 +245,7 @@ def step (st : St) (line : List String) : St × String :=
         -- (savepoint directories as they are now: another publication may have created one meanwhile)
         let start := st.fs.filter (fun e => !e.1.isWork) ++ fs0.filter (fun e => e.1.isWork)
         let run := fun (m : DocMode) =>
-          if pub.2 then createArtifactS lister m start (jobURI id) pub.1 sched else (applyWork start env, true)
+          if pub.2 then createArtifactSJ lister m jobMode start (jobURI id) pub.1 sched else (applyWork start env, true)
         let r := run docMode
         let spec := run .writeRead
         let st2 := { st' with fs := r.1, held := none, released := true }
@@ -257,8 +257,7 @@ def step (st : St) (line : List String) : St × String :=
         let st4 := if differs then { st3 with repaired := (id, spec.1) :: st.repaired } else st3
         -- D65 (open): the creation copies the job snapshot LAST; the next publication's cleanup may have removed it by then.
         -- The property wants the requested savepoint: what the creation gives if that file is left alone.
-        let envKeepJob := env.filter (fun w => w.uri != jobURI id)
-        let kept := if pub.2 then createArtifactS lister docMode start (jobURI id) pub.1 (List.replicate n [] ++ [envKeepJob]) else r
+        let kept := if pub.2 then createArtifactSJ lister docMode .fromBytes start (jobURI id) pub.1 sched else r
         let jobGone := (read st.fs (.work (jobURI id))).isNone
         if render r != render spec then (st4, render r ++ " #spec " ++ render spec ++ " #kf D53")
         else if pub.2 && jobGone && !r.2 && kept.2 then (st4, render r ++ " #spec " ++ render kept ++ " #kf D65")
